@@ -22,6 +22,7 @@ mod recxof;
 mod prio3rec;
 mod c13;
 mod c16;
+mod c19;
 mod c20;
 
 #[global_allocator]
@@ -57,6 +58,7 @@ fn main() {
         ("c07", "replay") => c07::replay(stdin_lines()),
         ("c07", "fuzz") => c07::fuzz(rest, stdin_lines()),
         ("c16", "run") => c16::run(stdin_lines()),
+        ("c19", "record") => c19::record(rest),
         ("c12", "replay") => c12::replay(rest[0].parse().unwrap(), stdin_lines()),
         (p, m) => {
             eprintln!("unknown property/mode {p} {m}");
